@@ -174,6 +174,11 @@ def evaluate(task):
         order = [os.path.realpath(p) for p in jupyter_config_path()]
         two = sorted((extra, user), key=lambda p: order.index(os.path.realpath(p)))
         dirs[2], dirs[3] = two            # priority among the non-cwd directories is jupyter's own
+        usernum = 2 if dirs[2] == user else 3
+        if k % 3 == 0 and not any(s["dir"] == usernum for s in case["sites"]):
+            # the working directory is itself the (otherwise unused) user-level config directory: its file is on the
+            # search path twice and still takes precedence as the working-directory file
+            os.environ["JUPYTER_CONFIG_DIR"] = dirs[1]
         sections, default, values, flagname = OPTIONS[opt]
         files = {}
         valmap = {}
@@ -209,6 +214,22 @@ def evaluate(task):
             res["config"] = cfg.get(opt, default if opt != "port" else None)
         except Exception as e:  # noqa
             res["config_raised"] = "%s: %s" % (type(e).__name__, e)
+        if "config_raised" not in res:
+            # option resolution is a function of the configuration: listing the configuration (what --config does:
+            # build_config(ep, True)) changes neither this entry point's values nor another entry point's
+            try:
+                others = [e for e in ("nbshow", "nbmerge", "nbdiff-web", "nbdiff") if e != ep][:2]
+                before = {e: json.dumps(nbdime.config.build_config(e), sort_keys=True, default=str) for e in others}
+                nbdime.config.build_config(ep, True)
+                again = nbdime.config.build_config(ep).get(opt, default if opt != "port" else None)
+                after = {e: json.dumps(nbdime.config.build_config(e), sort_keys=True, default=str) for e in others}
+                if again != res["config"]:
+                    res["listing_changed"] = "%s of %s: %r -> %r" % (opt, ep, res["config"], again)
+                for e in others:
+                    if before[e] != after[e]:
+                        res["listing_changed"] = "config of %s: %s -> %s" % (e, before[e][:300], after[e][:300])
+            except Exception as e:  # noqa
+                res["listing_raised"] = "%s: %s" % (type(e).__name__, e)
         if opt != "Ignore" and ep != "extension":
             flags = [flagname, str(FLAG_VALUE[opt])] if use_flag else []
             try:
@@ -290,6 +311,10 @@ def run():
         info = dict(desc, expected=exp, observed={k: v for k, v in res.items() if k != "expected"},
                     model_winner=[c["winner"], c["wdir"], c["wsection"]])
         kind = "global-section" if any(s["section"] == "Global" for s in c["sites"]) else "sections"
+        if "listing_changed" in res or "listing_raised" in res:
+            chk.violation("build_config:listing-changes-resolution" if "listing_changed" in res else "build_config-listing-raised",
+                          "build_config(%s, include_none=True) (the --config listing) %s"
+                          % (ep, res.get("listing_changed") or res.get("listing_raised")), info)
         if "config_raised" in res:
             chk.violation("build_config-raised:%s" % opt, "build_config(%s) raised %s" % (ep, res["config_raised"]), info)
             continue
